@@ -99,4 +99,3 @@ func vhC11Exit() {
 	b.container.bwg.Wait()
 	vCover("C11.exit.reach")
 }
-
